@@ -57,11 +57,17 @@ let parse_reqs (s : string) : creq list =
   List.mapi (fun i p ->
       match String.split_on_char ',' p with
       | [name; _meth; pre; post; tmpl] ->
+          let tl = String.length tmpl in
+          let suffix = if tl > 2 && tmpl.[tl - 2] = '!' then String.sub tmpl (tl - 2) 2 else "" in
+          let tmpl = String.sub tmpl 0 (tl - String.length suffix) in
           { cq_name = bs name; cq_id = n_of_int i; cq_iter = n_of_int 0;
             cq_pre = List.map parse_mapping (split_on '+' pre);
             cq_post = List.map parse_post (split_on '+' post);
-            cq_tmpl = (if tmpl = "-" then TNone else if tmpl = "E" then TBad
-                       else TRef (bs (String.sub tmpl 2 (String.length tmpl - 2)))) }
+            cq_tmpl = (if tmpl = "-" then TNone
+                       else if tmpl.[0] = 'E' then TBad
+                       else if tmpl.[0] = 'X' then TRefBad (bs (String.sub tmpl 2 (String.length tmpl - 2)))
+                       else TRef (bs (String.sub tmpl 2 (String.length tmpl - 2))));
+            cq_html = (suffix = "!h") }
       | _ -> failwith "req") (split_on ';' s)
 
 let parse_scens (s : string) : cscen list =
@@ -123,8 +129,8 @@ let print_expansion (steps : (creq * z) list) (minw : z) : string =
 
 let print_send (r : crend) : string =
   let rf = match r.rd_ref with
-    | None -> "-"
-    | Some None -> hex_of_string "<no value>"
+    | None -> "~"
+    | Some None -> hex_of_string (if r.rd_html then "" else "<no value>")
     | Some (Some v) -> hex_of_bytes v in
   let a = match r.rd_a with Some v -> string_of_bytes v | None -> "<no value>" in
   Printf.sprintf "%s/%s/%s/%s/1" (string_of_n r.rd_id) (hex_of_string (print_reqmap r.rd_vars)) rf a
